@@ -62,11 +62,96 @@ type lockIn struct {
 
 func c11(r *core.Run) {
 	n := r.Pick(240, 8000)
-	for ci := int64(1); ci <= int64(n); ci++ {
+	ci := int64(0)
+	for ci < int64(n) {
+		ci++
 		if !r.Take(ci) {
 			continue
 		}
 		c11History(r, ci)
+	}
+	// handle recycling: a stale handle released again after the same connection went through
+	// many more acquisitions (handles are handed out from per-connection batches)
+	for _, cycles := range []int{1, 2, 31, 62, 63, 64, 65, 66, 126, 127, 128, 129, 130, 191, 192, 193, 300} {
+		ci++
+		if !r.Take(ci) {
+			continue
+		}
+		c11Recycle(r, ci, cycles)
+	}
+}
+
+// c11Recycle: MaxConns=1. A acquires and releases (keeps the handle); the connection is then
+// acquired and released `cycles` times; C acquires and holds; A releases its stale handle again;
+// D must not be able to acquire while C holds.
+func c11Recycle(r *core.Run, ci int64, cycles int) {
+	desc := map[string]any{"class": "handle-recycling", "cycles": cycles}
+	r.CaseLog(fmt.Sprintf("%d %v", ci, desc))
+	r.Eval()
+	r.NonTrivial("handle-recycling", cycles)
+	fail := func(cls, msg string) {
+		r.Violation(cls, fmt.Sprintf("%s [handle recycling, %d acquisitions between the two releases of the stale handle]", msg, cycles), desc)
+	}
+	dialer := &simDialer{}
+	var served atomic.Int64
+	dialer.mk = func(i int) (*simnet.Conn, error) {
+		script := &simnet.Script{Rev: 54460}
+		script.OnQuery = func(q *ref.Query) []simnet.Item {
+			served.Add(1)
+			return []simnet.Item{{Data: simnet.PacketEnd()}}
+		}
+		return simnet.New(simnet.NewScriptServer(script)), nil
+	}
+	ctx, cancel := context.WithTimeout(context.Background(), 30*time.Second)
+	defer cancel()
+	pool, err := chpool.New(ctx, chpool.Options{ClientOptions: ch.Options{Dialer: dialer, ReadTimeout: 300 * time.Millisecond, Address: "sim:9000"}, MaxConns: 1, HealthCheckPeriod: time.Hour})
+	if err != nil {
+		fail("harness:new-pool", err.Error())
+		return
+	}
+	defer pool.Close()
+	defer func() {
+		if p := recover(); p != nil {
+			fail("panic", fmt.Sprintf("panic: %v", p))
+		}
+	}()
+	a, err := pool.Acquire(ctx)
+	if err != nil {
+		fail("harness:acquire", err.Error())
+		return
+	}
+	_ = a.Do(ctx, ch.Query{Body: "OK"})
+	a.Release()
+	for i := 0; i < cycles; i++ {
+		b, err := pool.Acquire(ctx)
+		if err != nil {
+			fail("harness:acquire", err.Error())
+			return
+		}
+		b.Release()
+	}
+	c, err := pool.Acquire(ctx)
+	if err != nil {
+		fail("harness:acquire", err.Error())
+		return
+	}
+	a.Release() // stale handle, released a second time while C holds the only connection
+	if got := pool.Stat().AcquiredResources(); got != 1 {
+		fail("repeated-release-affects-other-holder", fmt.Sprintf("after a repeated Release of a stale handle the pool reports %d acquired connections while one holder still holds the only one", got))
+	}
+	dctx, dcancel := context.WithTimeout(ctx, 100*time.Millisecond)
+	d, derr := pool.Acquire(dctx)
+	dcancel()
+	if derr == nil {
+		fail("two-holders-on-one-connection", "a second holder acquired the only connection (MaxConns=1) while the first still holds it, after a stale handle was released again")
+		d.Release()
+	}
+	if err := c.Do(ctx, ch.Query{Body: "OK"}); err != nil {
+		fail("holder-lost-its-connection", "the legitimate holder's query failed: "+err.Error())
+	}
+	c.Release()
+	if n := len(dialer.Conns()); n != 1 {
+		fail("too-many-open-connections", fmt.Sprintf("%d connections dialed with MaxConns=1", n))
 	}
 }
 
